@@ -126,7 +126,8 @@ def main():
                         res = list(get_exploitabilities_of_action_sequences(game, fg, gapf, max_size=k, processes=p))
                         t["seqs"] = [[int(c.id) for c in seq] for seq, _ in res]
                         t["vals"] = [gap_iv(val, n, gap, scale, M) for _, val in res]
-                        sig = [(tuple(s), float(val).hex()) for s, (_, val) in zip(t["seqs"], res)]
+                        # the result as a mapping reveal set -> gap (the order of the list is not part of the property)
+                        sig = sorted((tuple(sorted(s)), float(val).hex()) for s, (_, val) in zip(t["seqs"], res))
                         if first is None:
                             first = sig
                         t["same_p1"] = int(sig == first)
@@ -164,6 +165,7 @@ def main():
                 tid += 1
                 t = base(tid, n, a.what, comp, r, gap, minimal, scale)
                 t.update({"max_steps": max_steps, "p": p, "inclass": 1, "exh_upto": 2 if n >= 4 else 3})
+                drawn_before = len(counting.games)
                 try:
                     if a.what == "best":
                         rows, actions = get_best_exploitability(env, max_steps, reps, gapf, processes=p)
@@ -172,7 +174,7 @@ def main():
                         rnd = random.Random(a.seed + tid) if rng.random() < 0.5 else None
                         rows, seq = get_greedy_rewards(env, max_steps, reps, gapf, processes=p, random=rnd)
                         t["seq"] = [int(c) for c in seq]
-                    sampled = counting.games[2:]
+                    sampled = counting.games[drawn_before:]        # the games drawn during the call, however many the constructor drew
                     t["games"] = [D.exact_arr(g.get_values(), scale) for g in sampled]
                     t["rows"] = [[gap_iv(x, n, gap, scale, M) if x >= 0 else [-1, -1] for x in row] for row in np.asarray(rows)]
                 except D.DriverError:
